@@ -20,7 +20,8 @@ LEVEL_TEXT = ('Static decision of the structural necessary conditions of the lis
               'the first trial, once per DoGlobalIteration call with exactly that call\'s new trials, once at stop '
               'with the current result, for every listener, on every returning path) holds on the event traces of the drivers; Process uses '
               'the very list AddListener appends to; the console report wires each label to its quantity; no shipped '
-              'callback can write an object of the solver state; AddListener registers the listener object itself.')
+              'callback can write an object of the solver state; AddListener registers the listener object itself; '
+              'on the exceptional exit of the iteration driver no notification carries the item of the failed trip.')
 EXPLANATION = ('Signatures and attribute uses are resolved through the points-to relation (which listener classes can '
                'be in the list, which objects reach each callback parameter). The protocol is decided on path '
                'summaries of DoGlobalIteration and Solve. Non-interference is an effect analysis: the union of '
@@ -156,6 +157,145 @@ def r13_2(ctx: Ctx):
     ctx.floor(rid, 'attribute uses on solver objects in listener/painter/console code', n, 40)
 
 
+def rule_index_bound_provenance(ctx: Ctx, rid: str):
+    """A shipped listener object keeps what it learned in BeforeMethodStart (the problem, the parameters) as its own
+    state; the trials it is handed later come from whichever solver calls it.  For one listener per solver the two
+    agree.  Attached to two solvers the state is that of the solver that started last - harmless while it is only
+    printed, but an index loop over *argument* data bounded by a size taken from the *listener state* runs past the end
+    of the other solver's points: the callback raises IndexError, Solve swallows it, and merely starting a second solver
+    has cut the first one short."""
+    ctx.rule(rid, 'in the code of the shipped callbacks an index loop over data that arrives as a callback argument is '
+                  'bounded by that data (len / shape) or by another part of the same argument - never by a size read '
+                  'from the state the listener object kept from an earlier call')
+    roles = C.roles_of(ctx)
+    lst = roles.listener_methods()
+    base = ctx.ix.find_cls('Listener')
+    cb_names = set(base.methods) if base is not None else set()
+    funcs = {}
+    for q in sorted(lst):
+        f = ctx.ix.funcs.get(q)
+        if f is None or f.kind != 'function' or f.name not in cb_names or f.cls is base:
+            continue
+        for r in ctx.pta.reachable([f], stop=None):
+            g = ctx.ix.funcs.get(r)
+            if g is not None and g.kind == 'function' and isinstance(g.node, ast.FunctionDef) and \
+                    g.module.name.startswith(('iOpt.output_system', 'iOpt.method.listener')):
+                funcs[r] = g
+    callbacks = {q for q in lst if q in funcs and funcs[q].name in cb_names}
+
+    def single_assign(fn, name):
+        found = []
+        for nd in ast.walk(fn.node):
+            if isinstance(nd, ast.Assign) and len(nd.targets) == 1 and isinstance(nd.targets[0], ast.Name) and \
+                    nd.targets[0].id == name:
+                found.append(('v', nd.value))
+            elif isinstance(nd, (ast.For, ast.comprehension)) and isinstance(nd.target, ast.Name) and \
+                    nd.target.id == name:
+                found.append(('i', nd.iter))
+        return found[0] if len(found) == 1 else None
+
+    def root_of(fn, e, depth=0):
+        """('self', attr) | ('param', name) | None"""
+        selfn = fn.param_names[0] if fn.cls is not None and fn.param_names and not fn.is_static else None
+        while True:
+            if isinstance(e, ast.Call) and isinstance(e.func, ast.Name) and e.func.id in ('len', 'list', 'tuple', 'enumerate',
+                                                                                         'reversed', 'sorted') and e.args:
+                e = e.args[0]
+            elif isinstance(e, ast.Call) and isinstance(e.func, ast.Attribute):
+                e = e.func.value
+            elif isinstance(e, ast.Subscript):
+                e = e.value
+            elif isinstance(e, ast.Attribute):
+                if isinstance(e.value, ast.Name) and e.value.id == selfn:
+                    return ('self', e.attr)
+                e = e.value
+            else:
+                break
+        if isinstance(e, ast.Name):
+            if e.id == selfn:
+                return ('self', '')
+            if e.id in fn.param_names:
+                return ('param', e.id)
+            sa = single_assign(fn, e.id)
+            if sa is not None and depth < 4:
+                return root_of(fn, sa[1], depth + 1)
+        return None
+
+    def up(fn, root, depth=0):
+        """Follow a parameter root to the callers: set of ('self', class, attr) / ('cbarg', callback, name)."""
+        if root is None:
+            return set()
+        if root[0] == 'self':
+            return {('self', fn.cls.name if fn.cls else '', root[1])}
+        q = roles.fq(fn)
+        if q in callbacks:
+            return {('cbarg', fn.name, root[1])}
+        if depth > 3:
+            return set()
+        out = set()
+        idx = fn.param_names.index(root[1])
+        for caller in roles.callers_of(fn):
+            if roles.fq(caller) not in funcs:
+                continue
+            for nd in ast.walk(caller.node):
+                if not (isinstance(nd, ast.Call) and fn in ctx.pta.internal_callees(caller, nd)):
+                    continue
+                off = 1 if (fn.cls is not None and not fn.is_static and isinstance(nd.func, ast.Attribute)) else 0
+                arg = None
+                if idx - off < len(nd.args) and idx - off >= 0:
+                    arg = nd.args[idx - off]
+                for kw in nd.keywords:
+                    if kw.arg == root[1]:
+                        arg = kw.value
+                if arg is not None:
+                    out |= up(caller, root_of(caller, arg), depth + 1)
+        return out
+    n = 0
+    for q, f in sorted(funcs.items()):
+        loops = []
+        for nd in ast.walk(f.node):
+            if isinstance(nd, ast.For):
+                loops.append((nd.target, nd.iter, nd.body))
+            elif isinstance(nd, (ast.ListComp, ast.GeneratorExp, ast.SetComp)):
+                for g in nd.generators:
+                    loops.append((g.target, g.iter, [nd.elt]))
+        for tgt, it, body in loops:
+            if not (isinstance(tgt, ast.Name) and isinstance(it, ast.Call) and isinstance(it.func, ast.Name)
+                    and it.func.id == 'range' and it.args):
+                continue
+            bound = it.args[-1] if len(it.args) <= 2 else it.args[1]
+            rb = root_of(f, bound)
+            if rb is None:
+                continue
+            for b in body:
+                for sub_ in ast.walk(b):
+                    if not (isinstance(sub_, ast.Subscript) and isinstance(sub_.ctx, ast.Load) and
+                            any(isinstance(x, ast.Name) and x.id == tgt.id for x in ast.walk(sub_.slice))):
+                        continue
+                    rx = root_of(f, sub_.value)
+                    if rx is None or rx == rb:
+                        continue
+                    n += 1
+                    ox, ob = up(f, rx), up(f, rb)
+                    if any(o[0] == 'cbarg' for o in ox) and ob and all(o[0] == 'self' for o in ob):
+                        state = sorted({f'{o[1]}.{o[2]}' for o in ob})
+                        args_ = sorted({f'{o[1]}({o[2]})' for o in ox if o[0] == 'cbarg'})
+                        ctx.fail(rid, f.short, f.loc(sub_),
+                                 f'`{ast.unparse(sub_)}` indexes data that arrives with the callback ({", ".join(args_)}) '
+                                 f'over range({ast.unparse(bound)}), a size taken from the listener state '
+                                 f'({", ".join(state)}) kept from an earlier call: for a listener attached to two '
+                                 f'solvers that state belongs to the solver that started last, the loop runs past the '
+                                 f'end of the other solver\'s points, the callback raises inside Solve (which swallows '
+                                 f'the exception) and the earlier solver stops short',
+                                 key=f'{rid}::{f.short}::{ast.unparse(sub_)[:30]}')
+    ctx.analysed[f'{rid}_indexed_reads_with_foreign_bound'] = n
+    ctx.floor(rid, 'functions reachable from the shipped callbacks', len(funcs), 10)
+    if not any(x.rule == rid for x in ctx.findings):
+        ctx.ok(rid, 'shipped callbacks', f'{len(funcs)} functions reachable from the shipped callbacks; {n} index loops '
+                                         f'whose bound and data have different origins: none pairs argument data with a '
+                                         f'bound from the listener state', 'iOpt/output_system')
+
+
 def r13_3(ctx: Ctx):
     rid = 'R13.3'
     ctx.rule(rid, 'protocol: BeforeMethodStart for every listener before the seeding routine (first call only); the '
@@ -258,6 +398,38 @@ def r13_3(ctx: Ctx):
             ctx.check(r_ok, rid, drv.short, drv.loc(x.node), 'OnEndIteration receives the current result',
                       'OnEndIteration does not receive GetResults()', key=f'{rid}::{drv.short}::end-result')
     ctx.floor(rid, 'paths of the iteration driver', n, 4)
+    # R13.9: when the evaluation of a trip raises, the exception leaves the driver.  If the listeners are notified on
+    # that way out (a finally: block), the list must hold evaluated trials only - the driver records the new item
+    # *before* it is evaluated, so a notification from the exceptional exit hands over an item that was never evaluated
+    # and is in neither the search data nor the trial count.
+    ctx.rule('R13.9', 'exceptional exit of the iteration driver: on a path on which an evaluation raises, '
+                      'OnEndIteration is not delivered with a list that already holds the item of the failed trip')
+    exf = driver_explorer(ctx, [er, roles.optimum_updater])
+    exf._may_raise = lambda ev: er in ev.d['callees'] and not ev.d.get('inlined')
+    nf = 0
+    for p in exf.explore(drv):
+        evs = p.events
+        fails = [i for i, e in enumerate(evs) if e.kind == 'raise' and e.d.get('implicit')]
+        if not fails:
+            continue
+        nf += 1
+        i0 = fails[0]
+        ends = lcalls(evs[i0:], 'OnEndIteration')
+        if not ends:
+            continue
+        started = [e for e in evs[:i0] if e.kind == 'call' and er in e.d['callees'] and not e.d.get('inlined')]
+        completed = len(started) - 1          # the last one is the call that raised
+        recorded = [e for e in evs[:i0] if e.kind == 'call' and e.d['name'] == 'append' and C.at_level(e, drv)]
+        ctx.check(len(recorded) <= completed, 'R13.9', drv.short, drv.loc(ends[0].node),
+                  'the notification on the exceptional exit holds evaluated trials only',
+                  f'when an evaluation raises, {drv.short} still delivers OnEndIteration (from the exceptional exit) with '
+                  f'a list of {len(recorded)} item(s) although only {completed} evaluation(s) of the call completed: '
+                  f'the listeners receive a point that was never evaluated, is not in the search data and is not '
+                  f'counted', key=f'R13.9::{drv.short}::phantom-trial-on-failure')
+    ctx.floor('R13.9', 'paths of the iteration driver on which an evaluation raises', nf, 1)
+    if not any(x.rule == 'R13.9' for x in ctx.findings):
+        ctx.ok('R13.9', drv.short, f'{nf} failing paths: none delivers OnEndIteration with the item of the failed trip',
+               drv.loc())
     # structural: notification loops range over the whole listener list, no break/continue/return
     for f in (drv, sd):
         loops = []
@@ -278,7 +450,7 @@ def r13_3(ctx: Ctx):
                       key=f'{rid}::{hf.short}::loop-complete::{hf.loc(nn)}')
         # the fresh local list
     news = [nn for hf in roles.helpers_of(drv) for nn in ast.walk(hf.node)
-            if isinstance(nn, ast.Assign) and isinstance(nn.value, ast.List) and not nn.value.elts]
+            if isinstance(nn, (ast.Assign, ast.AnnAssign)) and isinstance(nn.value, ast.List) and not nn.value.elts]
     ctx.check(bool(news), rid, drv.short, drv.loc(), 'the list of new trials is created empty in each call',
               'the list of new trials is not a fresh local list of the call', key=f'{rid}::{drv.short}::fresh-list')
     # (d) Solve: OnMethodStop on every returning path, after refinement, with the current result
